@@ -1,12 +1,66 @@
 #!/usr/bin/env python3
-"""replay.py <replay file>: re-executes one recorded case against /repo's current working tree and prints what the real
-code did, step by step, and what the TLC monitor pass says about it."""
+"""replay.py <replay file>: re-executes one recorded case against /repo's current working tree (VERIF_REPO: another
+checkout), prints what the real code did and what the TLC monitor pass of that engine says about it.
+exit 1: the monitor flags the replay's property again; 0: it does not; 2: the case cannot be re-executed."""
 import json
 import os
 import sys
 
 sys.path.insert(0, os.path.dirname(os.path.abspath(__file__)))
 import vlib  # noqa: E402
+
+# kind of replay file -> (harness, flag of the input file, further arguments, monitor module, monitor configuration head)
+SPEC = 'SPECIFICATION Spec\n'
+ENGINES = {
+    "hubtest": ("hubapi", "-tests", ["-summary", "{sc}/sum.json"], "MonHub", SPEC),
+    "hub2script": ("hub2", "-scripts", ["-par", "1", "-scale", "{scale}"], "MonHub2", SPEC),
+    "wsscript": ("wsconn", "-scripts", ["-summary", "{sc}/sum.json"], "MonWs", SPEC),
+    "certrow": ("certgate", "-rows", [], "MonCert", 'INIT MInit\nNEXT MNext\nCONSTANT FullLens = FALSE\n'),
+    "jsondoc": ("eebusjson", "-rows", [], "MonJson", SPEC),
+    "textrow": ("mdnstext", "-rows", [], "MonText", 'INIT MInit\nNEXT MNext\n'),
+    "annseq": ("mdnstext", "-seqs", [], "MonAnn", SPEC),
+    "mdnsscript": ("mdnsmgr", "-scripts", ["-summary", "{sc}/sum.json"], "MonMdns", SPEC),
+    "badrow": ("mdnsmgr", "-bad", [], "MonBad", SPEC),
+    "avahiscript": ("avahi", "-scripts", ["-summary", "{sc}/sum.json"], "MonAvahi", SPEC),
+}
+
+
+def generic(r, kind, sc, sd, prop):
+    harness, flag, extra, mon, head = ENGINES[kind]
+    case = r[kind]
+    if kind == "annseq":
+        case = dict(id=0, ops=case)
+    if isinstance(case, dict) and "id" not in case:
+        case["id"] = 0
+    binp = vlib.build_harness(sc, harness)
+    flagged = False
+    # two-hub scenarios were run with the dial back-off scaled to 2 % or to zero (the replay file does not say which): both
+    for scale in (["20", "0"] if kind == "hub2script" else [""]):
+        inp = os.path.join(sc, "in%s.ndjson" % scale)
+        with open(inp, "w") as f:
+            f.write(json.dumps(case) + "\n")
+        obs = os.path.join(sc, "obs%s.ndjson" % scale)
+        args = [a.format(sc=sc, scale=scale) for a in extra]
+        rc, out = vlib.run([binp, flag, inp, "-obs", obs] + args, timeout=600)
+        print(out.strip()[-3000:])
+        if rc != 0:
+            crash = vlib.library_crash(out)
+            print("the harness ended with status %d%s" % (rc, " - library crash: " + crash if crash else ""))
+            return crash is not None
+        for line in open(obs):
+            print(line.strip()[:4000])
+        name = "%sReplay%s" % (mon, scale)
+        with open(os.path.join(sd, name + ".tla"), "w") as f:
+            f.write("---- MODULE %s ----\nEXTENDS %s\n====\n" % (name, mon))
+        with open(os.path.join(sd, name + ".cfg"), "w") as f:
+            f.write(head + 'CONSTANT ObsFile = "%s"\nPOSTCONDITION Done\nCHECK_DEADLOCK FALSE\n' % obs)
+        t = vlib.tlc(sd, name, workers=1, timeout=600)
+        if t["error"]:
+            raise vlib.Infra("monitor pass failed: %s\n%s" % (t["error"], t["tail"]))
+        for m in vlib.tlc_lines(t["out_path"], "MON"):
+            print("MONITOR", m["key"], "flags", m.get("kf"))
+            flagged = flagged or m["key"][0] == prop
+    return flagged
 
 
 def main():
@@ -23,7 +77,7 @@ def main():
                 o = json.loads(line)
                 for i, s in enumerate(o["steps"]):
                     print("%3d %-16s %-28s %s -> %-22s timer=%s open=%s %s" % (
-                        i + 1, s["a"]["a"], s["a"]["m"], s["e"], s["ob"]["st"], s["ob"]["tRun"], s["ob"]["wsOpen"],
+                        i + 1, s["a"]["a"], s["a"].get("m", ""), s["e"], s["ob"]["st"], s["ob"]["tRun"], s["ob"]["wsOpen"],
                         " ".join("%s:%s" % (e["k"], e["v"]) for e in s["ob"]["ev"])))
             mons, _ = sme.monitor(sd, obs, "r")
             for m in mons:
@@ -41,7 +95,13 @@ def main():
             rc, out = vlib.run([binp, "-scripts", sp, "-obs", obs, "-summary", os.path.join(sc, "s.json")], timeout=120, env=env)
             print(out)
             print(open(obs).read())
+        elif "output_tail" in r:
+            print("a process crash inside the library; the output of the run that crashed:\n" + r["output_tail"])
+            sys.exit(2)
         else:
+            for kind in ENGINES:
+                if kind in r:
+                    sys.exit(1 if generic(r, kind, sc, sd, prop) else 0)
             print("unknown replay file format")
             sys.exit(2)
 
